@@ -112,6 +112,39 @@ def main(tier, seed):
         oracle = json.loads(p.stdout)
     except Exception as e:
         raise lib.BrokenCheck('mpmath oracle failed: %r' % e)
+    # HIGH orders (where (n-1)!, n^n, ... leave the int64 range) of the closed forms with an elementary n-th derivative: exact rational /
+    # float formula written out here (the certified enclosure of the Coq closed form is too slow to unfold at n = 30), relative 1e-10
+    import math
+    fact = math.factorial
+    def cyc(vals, n): return vals[n % 4]
+    HIGHREF = {
+        'log': lambda x, n: F((-1) ** (n - 1) * fact(n - 1)) / x ** n,
+        'log1p': lambda x, n: F((-1) ** (n - 1) * fact(n - 1)) / (1 + x) ** n,
+        'log2': lambda x, n: float(F((-1) ** (n - 1) * fact(n - 1)) / x ** n) / math.log(2),
+        'log10': lambda x, n: float(F((-1) ** (n - 1) * fact(n - 1)) / x ** n) / math.log(10),
+        'reciprocal': lambda x, n: F((-1) ** n * fact(n)) / x ** (n + 1),
+        'exp': lambda x, n: math.exp(x), 'expm1': lambda x, n: math.exp(x),
+        'exp2': lambda x, n: math.log(2) ** n * 2.0 ** float(x),
+        'sin': lambda x, n: cyc([math.sin(x), math.cos(x), -math.sin(x), -math.cos(x)], n),
+        'cos': lambda x, n: cyc([math.cos(x), -math.sin(x), -math.cos(x), math.sin(x)], n),
+        'sinh': lambda x, n: math.sinh(x) if n % 2 == 0 else math.cosh(x),
+        'cosh': lambda x, n: math.cosh(x) if n % 2 == 0 else math.sinh(x),
+        'sqrt': lambda x, n: float(numpy.prod([F(1, 2) - k for k in range(n)])) * float(x) ** (0.5 - n),
+        'square': lambda x, n: 0.0, 'negative': lambda x, n: 0.0,
+    }
+    for name in sorted(HIGHREF):
+        for n in ([13, 22, 30] if tier == 'quick' else [11, 13, 17, 20, 21, 22, 23, 25, 30]):
+            x = rng.choice([F(3, 4), F(2), F(7, 2), F(5, 4)])
+            rep.count('high order', n); rep.count('function', name)
+            rep.case(('high-order', name, str(x), n), True, sample=dict(check='high order', function=name, x=str(x), n=n))
+            try:
+                y = float(numpy.asarray(getattr(nd, name)(numpy.array([float(x)]), n=n)).reshape(-1)[0])
+                want = float(HIGHREF[name](x if name in ('log', 'log1p', 'reciprocal', 'log2', 'log10') else float(x), n))
+                if not (abs(y - want) <= 1e-10 * abs(want)):
+                    rep.violation('high-order:%s' % name, 'nthderiv.%s(%s, n=%d) = %r but the %d-th derivative is %r' % (name, x, n, y, n, want),
+                                  dict(kind='high-order', function=name, x=str(x), n=n, impl=y, want=want))
+            except Exception as e:
+                rep.violation('impl:%s:exception' % name, 'nthderiv.%s(x=%s, n=%d) raises %r' % (name, x, n, e), dict(kind='exception', function=name, prm=[], x=str(x), n=n))
     goals = []
     for ci_, ((name, prm, x, n, has_model), y, o) in enumerate(zip(cases, results, oracle)):
         meta = dict(function=name, prm=prm, x=str(x), n=n, impl=y, mpmath=o)
